@@ -67,6 +67,11 @@ def cases(tier, rng):
             ops += [build_text(q, rng.choice(texts))] + ops_for(rng, q)
         ops += [build_text(0, rng.choice(texts[:3]))] + ops_for(rng, 0, "asks")
         out.append((hist(rules, ops), "text-built"))
+    # the stop-flag protocol itself: a timer of an EARLIER query (still pending, cancelled or not) firing during a later
+    # one must not stop it (same step-by-step histories and laws as in C23)
+    from gen import C23 as _c23
+    tcases = [c for c in _c23.cases("quick", __import__("random").Random(rng.random())) if c[1] == "timer"]
+    out += tcases if tier == "thorough" else tcases[::3]
     m = 25 if tier == "quick" else 400
     for _ in range(m):
         rules, preds = g.program()
@@ -81,15 +86,23 @@ RULE = ("histories of 3-5 query builds over 2-3 queries of a random program (cut
         "`zero` among them). Oracle: every request on every build follows the reference search of THAT query "
         "alone (answers up to renaming of unbound variables, output per request, texts of solve/solve_all), whatever preceded it; "
         "and the two runs of the repeated query give identical observations. A few histories interleave the requests of two "
-        "queries (known finding). Non-trivial = at least two different queries return answers and one build is preceded by a "
+        "queries (known finding). The stop-flag protocol step by step: time-outs of timers of earlier queries (pending, cancelled, "
+        "superseded) must not stop a later query. Non-trivial = at least two different queries return answers and one build is preceded by a "
         "timed-out or abandoned query.")
 
 def nontrivial(case, tag, result):
     return result.count("(built") >= 3 and result.count("(ans (ss") + result.count("(strs s") >= 2 and ("stop-after" in case or True)
 
 def relations(cases, impl, model):
+    from gen import C23 as _c23
+    REL_STATS["timer_histories_checked"] = 0
+    for (case, tag), (iout, ires) in zip(cases, impl):
+        if tag == "timer" and ires.startswith("(tobs"):
+            why = _c23.timer_relations(case, ires)
+            if why: yield dict(case=case, tag=tag, why=why, implementation=dict(result=ires))
     for v in _spec_rel(cases, impl, model):
         yield v
+    REL_STATS["timer_histories_checked"] = sum(1 for (c, t) in cases if t == "timer")
     REL_STATS["repeated_query_runs_compared"] = 0
     for (case, tag), (iout, ires) in zip(cases, impl):
         if tag not in ("sequential", "text-built") or not ires.startswith("(obs"): continue
